@@ -40,3 +40,19 @@ let () = register "c03.number" (fun line ->
     let cl = if cls = [] then "-" else String.concat "," (List.map fst cls) in
     m ^ "\t" ^ sp ^ "\t" ^ cl
   | [] -> "BAD-CASE")
+
+(* c03.hexfloat: case = hex of the text handed to parseHexFloat; answer "<re_hex_float> <parse_hex_float ok>".
+   spec column: theorem parse_hex_float_char says both are always equal (and no fault), i.e. "<b> <b>". *)
+let () = register "c03.hexfloat" (fun line ->
+  match split_ws line with
+  | h :: _ ->
+    let s = bytes_of_hex h in
+    let re = re_hex_float s in
+    let m = match parse_hex_float s with
+      | Ok b -> bool_s b
+      | Fault IndexRange -> "PANIC index"
+      | Fault SliceBounds -> "PANIC slice"
+      | Fault _ -> "PANIC other"
+      | OutOfFuel -> "OUTOFFUEL" in
+    bool_s re ^ " " ^ m ^ "\t" ^ bool_s re ^ " " ^ bool_s re ^ "\t-"
+  | [] -> "BAD-CASE")
